@@ -101,6 +101,20 @@ pub fn gen(args: &[String]) {
                 }
             }
         }
+        "libseq" => {
+            // generate <file1>, then <file2> with the same function on the same thread; print the second
+            let first = std::fs::read_to_string(&args[1]).unwrap();
+            let text = std::fs::read_to_string(&args[2]).unwrap();
+            let d = if args.len() > 3 { Some(args[3..].iter().filter(|s| *s != "-").cloned().collect()) } else { None };
+            let _ = lib_generate(&first, &d);
+            match lib_generate(&text, &d) {
+                Ok(s) => println!("{s}"),
+                Err(e) => {
+                    println!("ERR {e}");
+                    std::process::exit(1)
+                }
+            }
+        }
         "file" | "dir" => {
             let is_file = args[0] == "file";
             let (c, rest) = if is_file { (Compile::file(&args[1]).destination(&args[2]), &args[3..]) } else { (Compile::directory(&args[1]), &args[2..]) };
@@ -155,6 +169,10 @@ fn corpus(tier: Tier) -> Vec<(String, bool)> {
     take("C09", n, &|_| true, false);
     out.push(("@export Pairs = keys : K '=' values : V { ',' keys : K '=' values : V } $ ;\n@string K = 'k' ;\n@string V = 'v' ;\n".into(), true));
     out.push(("@export R = f : K ( f : K g : V ) [ g : V f : K ] ;\n@string K = 'k' ;\n@string V = 'v' ;\n".into(), true));
+    // the same included rule name at different positions of the rule list, with different bodies
+    out.push(("@export Root = 'r' >X f:Y ;\nX = a:Y 'x' ;\nY = 'y' ;\n".into(), true));
+    out.push(("@export Root = 'r' >X f:Y ;\nY = 'y' ;\nX = 'x' [ a:Y ] ;\n".into(), true));
+    out.push(("Y = 'y' ;\nX = b:Y | 'x' ;\n@export Root = 'r' >X f:Y ;\n".into(), true));
     // quotes, backslashes and '#' inside literals (anything that scans the text for comments must read literals right)
     out.push(("@export Root = a:A b:B ;\n@string A = '\\\\' ;\n@string B = '#' 'x' ;\n".into(), true));
     out.push(("@export Root = a:A b:B ; # c '\n@string A = \"'\" '\\'' ;\n@string B = \"#\" '\\\\' '#' \"x\" 'y' ;\n".into(), true));
@@ -255,6 +273,22 @@ pub fn run(tier: Tier, cli: &str) {
                 };
                 // library, second call in this process
                 cmp(&mut st, "library-again", lib_generate(text, d));
+                // library, after other grammars were compiled by the same function on the same thread (the grammar value
+                // sits at the same address each time)
+                // (in a child process: a generator that dies is a finding, not the end of the check)
+                for back in [1usize, 2, 7] {
+                    let other = &grammars[(gi + grammars.len() - back % grammars.len()) % grammars.len()].0;
+                    let ofile = gdir.join(format!("other{back}.ebnf"));
+                    std::fs::write(&ofile, other).unwrap();
+                    let o = Command::new(&exe).arg("c16gen").arg("libseq").arg(&ofile).arg(&gfile).args(&dargs).stdout(Stdio::piped()).stderr(Stdio::null()).output().unwrap();
+                    let out = String::from_utf8_lossy(&o.stdout).to_string();
+                    let got = match o.status.code() {
+                        Some(0) => Ok(out),
+                        Some(1) => Err(out),
+                        _ => Ok(format!("<the process generating the code died: {}>", o.status)),
+                    };
+                    cmp(&mut st, &format!("library-after-another-grammar (corpus index -{back})"), got);
+                }
                 builder_orders(text, &gfile, &gdir.join("order.rs"), d, &mut st);
                 for run in 0..k {
                     // library in a fresh process
